@@ -8,7 +8,7 @@ def std_ops(alpha, cfg, tier, with_reads=True):
     """The shared history alphabet (simplest first)."""
     t, x = alpha.t, alpha.x
     ops = []
-    pts = ["P0", "P1", "P2", "P3", "P4"] + (["P5", "P7"] if tier == "thorough" else [])
+    pts = ["P0", "P1", "P2", "P3", "P4", "PU"] + (["P5", "P7"] if tier == "thorough" else [])
     for p in pts:
         ops.append(("insert", p, None, False, "db"))
     ops.append(("insert_multiple", ("P1", "P4"), None, False, "db"))
